@@ -1,3 +1,4 @@
+import HqModel.Props.C04Env
 import HqModel.Props.WorkerSide
 import HqModel.Alloc.Run
 import HqModel.Lemmas.AllocInv
